@@ -63,6 +63,7 @@ PANEL = [
 CTX = {"a": 1, "s": "abc", "l": [1, "a", None], "o": {"a": 1}, "k": "a"}
 
 BIG = "1" + "0" * 400
+HUGE = "9" * 5000  # more digits than int() accepts (sys.get_int_max_str_digits)
 
 SOUP = [
     "$", "@", "#", "_", "~", "^", "|", "&", ".", "..", "[", "]", "(", ")", ",", ":", "?", "*", "!", "&&", "||",
@@ -71,20 +72,20 @@ SOUP = [
     "a", "b", "length", "count", "match", "foo", "a-b", "é", "😀",
     "length(", "count(", "match(", "search(", "value(", "typeof(", "isinstance(", "is(", "type(", "keys(", "foo(",
     "0", "1", "-1", "01", "-0", "1e2", "1E+2", "1e-2", "1e400", "-1e400", "1.5", "1.", ".5", "-", "+1",
-    "9007199254740992", "-9007199254740992", "99999999999999999999", BIG, "-" + BIG, BIG + ".5", "1e" + "9" * 30,
+    "9007199254740992", "-9007199254740992", "99999999999999999999", HUGE, "-" + HUGE, HUGE + ":", ":" + HUGE, BIG, "-" + BIG, BIG + ".5", "1e" + "9" * 30,
     "'a'", '"a"', "''", '""', "'a\\'b'", '"a\\"b"', "'\\u0041'", "'\\ud83d\\ude00'", "'\\ud800'", "'\\x'",
     "'\\\\'", "'\n'", "'a\tb'", "'\\u12'", "'\\uZZZZ'",
-    "/a/", "/a/i", "/(/", "/[/", "/a/x", "/a+/ims", "/.*/", "/*/", "/\\/", "/(?P<n>a)(?P<n>b)/", "/a{2,1}/", "/(?i)a/",
+    "/a/", "/a/i", "/(/", "/[/", "/a/x", "/a+/ims", "/.*/", "/*/", "/\\/", "/(?P<n>a)(?P<n>b)/", "/a{2,1}/", "/(?i)a/", "/a{99999999999}/", "/a{1,99999999999}/", "'a{99999999999}'", "'('", "'[a'", "'a{2,1}'",
     ":", "::", "1:", ":1", "1:2", "1:2:3", "-1:", "::-1", "::0", "-:", "1e2:", ":-", "1:" + BIG, BIG + ":",
     " ", "\t", "\n",
 ]
 JUNK = ["{", "}", ";", "%", "\\", "`", "\x00", "=", "'", '"', "/", "'unterminated", '"unterminated', "/a", "'\\'", "\x7f", "\ud800"]
 
 PTR_SOUP = ["/", "~", "~0", "~1", "~2", "#", "-", "0", "1", "01", "+1", "-1", "a", "é", "\\u0041", "\\u12", "\\x", "\\",
-            "%41", "%zz", "%e9", "%", " ", "99999999999999999999", BIG, "-" + BIG, "#0", "#a", "#-1", "~a", "\\ud800", "\\/",
+            "%41", "%zz", "%e9", "%", " ", "99999999999999999999", HUGE, "-" + HUGE, "#" + HUGE, "0" + HUGE, BIG, "-" + BIG, "#0", "#a", "#-1", "~a", "\\ud800", "\\/",
             "😀", "\n", "\x00", "#" + BIG, "1_0", "１"]
 REL_SOUP = ["0", "1", "2", "3", "10", "01", "+", "-", "+1", "-1", "+10", "-12", "+0", "-0", "#", "/", "a", "~0", "é", "\\u0041",
-            "\\ud800", " ", "+" + BIG, BIG, "##", "#/", "/0", "/a", "\\", "%41"]
+            "\\ud800", " ", "+" + BIG, BIG, HUGE, "+" + HUGE, "-" + HUGE, "/" + HUGE, "##", "#/", "/0", "/a", "\\", "%41"]
 
 
 class Hang(Exception):
@@ -161,7 +162,7 @@ def soup_text(rng):
         toks.insert(0, rng.choice(["$", "$", "$[?", "$.", "$[", "$[?@", "$..", "^", "$[?("]))
     if rng.random() < 0.4:
         toks.append(rng.choice(["]", ")]", ")", "]]"]))
-    return sep.join(toks)[:600]
+    return sep.join(toks)[:12000]
 
 
 def valid_text(rng, ext=True):
@@ -235,6 +236,55 @@ def t_queries(seed, n):
             stats.sample({"query": text, "mode": mode, "outcome": outcome})
 
     hyp_run(q_cases(), body, n, seed, stats)
+    return stats
+
+
+# ------------------------------------------------------------------ every registered function x every kind of argument value
+
+TYPE_VALUES = [None, True, False, 0, 1, -1, 1.5, "", "a", "abc", "number", "(", "a{99999999999}", [], [1], ["a"], ["number"], [[1]],
+               {}, {"a": 1}, {"number": 1}]
+
+
+def t_functions(shard=0, nshards=1):
+    """data-dependent failures: each function (standard and non-standard) with arguments that are literals,
+    singular queries and non-singular queries resolving to every kind of JSON value"""
+    stats = Stats()
+    nv = len(TYPE_VALUES)
+    items = [{"v": v, "t": TYPE_VALUES[(i * 7 + j * 5 + 3) % nv]} for i, v in enumerate(TYPE_VALUES) for j in range(4)]
+    doc = {"items": items, "k": "number"}
+    fns1 = ["length", "count", "value", "typeof", "type", "keys"]
+    fns2 = ["match", "search", "isinstance", "is"]
+    args = ["@.v", "@.t", "@", "@.*", "@.v.*", "@..v", "$.k", "$.items[0].v", "@.missing", "'number'", "1", "null", "true", "'('", "_.l", "#"]
+    texts = []
+    for f in fns1:
+        for a in args:
+            texts += ["$.items[?%s(%s)]" % (f, a), "$.items[?%s(%s) == @.t]" % (f, a), "$.items[?!%s(%s)]" % (f, a),
+                      "$.items[?%s(%s) in @.t]" % (f, a), "$.items[?%s(%s) < 1 || %s(%s) >= 'a']" % (f, a, f, a)]
+    for f in fns2:
+        for a in args:
+            for b in args:
+                texts += ["$.items[?%s(%s, %s)]" % (f, a, b), "$.items[?%s(%s, %s) == true]" % (f, a, b)]
+    ops = ["==", "!=", "<", "<=", ">", ">=", "<>", "in", "contains", "=~"]
+    for op in ops:
+        for a in ("@.v", "@.t", "@", "#", "_.l", "$.k", "[1, 'a']", "'a'", "1", "null", "undefined", "/a/"):
+            for b in ("@.t", "@.v", "[1, 'a']", "'a'", "1", "/a/i", "undefined"):
+                texts.append("$.items[?%s %s %s]" % (a, op, b))
+    n = 0
+    envs = [lib.ENV, jsonpath.JSONPathEnvironment(filter_caching=False)]
+    for ti, text in enumerate(texts):
+        if ti % nshards != shard:
+            continue
+        for env in envs:
+            case = {"kind": "fnquery", "text": text, "env": envs.index(env), "origin": "functions"}
+            k, path = guarded(stats, "compile", case, lambda: env.compile(text), JSONPathError)
+            if k == "ok":
+                guarded(stats, "evaluate", case, lambda: list(path.finditer(doc, filter_context=CTX)), JSONPathError)
+                guarded(stats, "evaluate", case, lambda: list(path.finditer({"items": {"x": items[5], "y": items[40]}, "k": [1]}, filter_context=CTX)), JSONPathError)
+            n += 1
+        stats.nt("fn", text)
+    stats.subspaces.append({"name": "10 functions and 10 operators x argument forms x 84 (value, type-name) pairs in the document, caching on/off, shard %d/%d" % (shard, nshards),
+                            "size": n, "exhaustive": True})
+    stats.sample({"query": texts[7], "document": "items = all pairs of %d values" % len(TYPE_VALUES)})
     return stats
 
 
@@ -435,6 +485,7 @@ def t_patches(seed, n):
 def tasks(tier, seed):
     nq, npz, npa = (12000, 12000, 8000) if tier == "quick" else (150000, 150000, 100000)
     ts = [{"name": "deep", "fn": "t_deep"}]
+    ts += [{"name": "functions-%d" % k, "fn": "t_functions", "kw": {"shard": k, "nshards": 4}} for k in range(4)]
     for k in range(8):
         ts.append({"name": "queries-%d" % k, "fn": "t_queries", "kw": {"seed": mix(seed, ID, "q", k), "n": nq}})
     for k in range(4):
@@ -455,6 +506,8 @@ def replay(case):
     stats = Stats()
     rng = random.Random(0)
     kind = case.get("kind")
+    if kind == "fnquery":
+        return t_functions()
     if kind == "query":
         docs = [case["doc_index"]] if "doc_index" in case else list(range(len(PANEL)))
         probe_query(stats, case["text"], docs, "replay")
